@@ -5,6 +5,7 @@
 #include "h/common.h"
 #include "vos/vos.h"
 
+#include "driver_impl.h"
 #include "socket_async_impl.h" // internal headers (as the repo's internals test does): name the descriptors
 #include "socket_buffered_impl.h"
 #include "socket_impl.h"
@@ -125,7 +126,11 @@ struct Scen
           RunOnEv(i);
         },
         [this, i](Address a, char const *reason) {
-          events.push_back("disconnect " + std::to_string(i) + " " + AddrOrd(a) + " " + Reason(reason) + T());
+          // is the descriptor still in the driver's poll set while the handler runs? (internal view)
+          int fd = libFd.count(i) ? libFd[i] : -1;
+          bool reg = false;
+          for(auto const &p : driver->impl->pfds) reg = reg || (p.fd == fd);
+          events.push_back("disconnect " + std::to_string(i) + " " + AddrOrd(a) + " " + Reason(reason) + (reg ? " reg=1" : " reg=0") + T());
           RunOnEv(i);
         });
     libFd[i] = s->impl->buff->sock->fd;
